@@ -614,6 +614,9 @@ pub struct Executor<'a, 'w> {
     pub tmpdir: Option<PathBuf>,
     pub op_hook: Option<OpHook<'w>>,
     pub poll_hook: Option<PollHook>,
+    /// One long-lived `Writer` per (index, metric, dimension), kept across transactions (also aborted ones) as an
+    /// application would: state hidden in a `Writer` must not outlive the transaction that made it.
+    writers: std::collections::HashMap<(u16, u8, usize), Box<dyn std::any::Any>>,
 }
 
 type OpResult = Result<String, OpErr>;
@@ -627,6 +630,7 @@ impl<'a, 'w> Executor<'a, 'w> {
             line: String::with_capacity(4096),
             poll_limit: DEFAULT_POLL_LIMIT,
             dead: false,
+            writers: std::collections::HashMap::new(),
             steps: 0,
             last_res: String::new(),
             last_polls: 0,
@@ -973,9 +977,36 @@ impl<'a, 'w> Executor<'a, 'w> {
         }
     }
 
-    fn run_w<D: Distance>(&mut self, w: &W, op: &Op) -> OpResult {
+    fn take_writer<D: Distance + 'static>(&mut self, w: &W) -> Writer<D> {
+        let key = (w.index, w.metric as u8, w.dims);
+        match self.writers.remove(&key).and_then(|b| b.downcast::<Writer<D>>().ok()) {
+            Some(b) => *b,
+            None => Writer::<D>::new(self.db::<D>(), w.index, w.dims),
+        }
+    }
+
+    fn put_writer<D: Distance + 'static>(&mut self, index: u16, metric: Metric, dims: usize, writer: Writer<D>) {
+        self.writers.insert((index, metric as u8, dims), Box::new(writer));
+    }
+
+    fn run_w<D: Distance + 'static>(&mut self, w: &W, op: &Op) -> OpResult {
+        let writer = self.take_writer::<D>(w);
+        if let Op::Prepare(_, new) = op {
+            // consumes the writer; the one it returns is the long-lived writer of the new metric
+            let (index, dims, new) = (w.index, w.dims, *new);
+            with_metric!(new, ND => {
+                let changed: Writer<ND> = writer.prepare_changing_distance::<ND>(self.wtxn()?)?;
+                self.put_writer::<ND>(index, new, dims, changed);
+            });
+            return Ok("ok".into());
+        }
+        let r = self.run_w_with::<D>(w, op, &writer);
+        self.put_writer::<D>(w.index, w.metric, w.dims, writer);
+        r
+    }
+
+    fn run_w_with<D: Distance + 'static>(&mut self, w: &W, op: &Op, writer: &Writer<D>) -> OpResult {
         let db = self.db::<D>();
-        let writer = Writer::<D>::new(db, w.index, w.dims);
         let index = w.index;
         match op {
             Op::Add(_, id, v) => {
@@ -994,13 +1025,7 @@ impl<'a, 'w> Executor<'a, 'w> {
                 writer.clear(self.wtxn()?)?;
                 Ok("ok".into())
             }
-            Op::Prepare(_, new) => {
-                let wtxn = self.wtxn()?;
-                with_metric!(*new, ND => {
-                    let _writer: Writer<ND> = writer.prepare_changing_distance::<ND>(wtxn)?;
-                });
-                Ok("ok".into())
-            }
+            Op::Prepare(..) => unreachable!(),
             Op::NeedBuild(_) => {
                 let b = self.with_rtxn(|rtxn| Ok(writer.need_build(rtxn)?))?;
                 Ok(format!("ok {}", b as u8))
@@ -1105,7 +1130,7 @@ impl<'a, 'w> Executor<'a, 'w> {
 
     /// Returns the `res` text (or the failure), the recorded events, and whether the poll
     /// limit was hit.
-    fn build<D: Distance>(
+    fn build<D: Distance + 'static>(
         &mut self,
         w: &W,
         o: &BuildOpts,
@@ -1116,7 +1141,13 @@ impl<'a, 'w> Executor<'a, 'w> {
             Some(wtxn) => wtxn,
             None => return (Err(Ok(other("notxn"))), Vec::new(), false),
         };
-        let mut writer = Writer::<D>::new(db, w.index, w.dims);
+        // a build with an injected temp-directory fault gets its own writer (`set_tmpdir` cannot be undone)
+        let cached_key = (w.index, w.metric as u8, w.dims);
+        let reuse = o.tmpdir.is_none() && self.tmpdir.is_none();
+        let mut writer = match (reuse, self.writers.remove(&cached_key).and_then(|b| b.downcast::<Writer<D>>().ok())) {
+            (true, Some(b)) => *b,
+            _ => Writer::<D>::new(db, w.index, w.dims),
+        };
         match o.tmpdir {
             Some(TmpFault::Missing) => writer.set_tmpdir(self.case.root_path.join("missing").join("tmp")),
             Some(TmpFault::ReadOnly) => writer.set_tmpdir(readonly_dir(self.case)),
@@ -1171,6 +1202,10 @@ impl<'a, 'w> Executor<'a, 'w> {
         let polls = calls.load(Ordering::SeqCst);
         self.last_polls = polls;
         let hit = limit_hit.load(Ordering::SeqCst);
+        if reuse && result.is_ok() {
+            // the builder borrowed the writer: it is the long-lived writer again (not after a panic)
+            self.writers.insert(cached_key, Box::new(writer));
+        }
         let res = match result {
             Ok(Ok(())) => Ok(format!("ok polls={polls}")),
             Ok(Err(e)) => Err(Err(BuildFailure::Err(build_err_res(&e, polls)))),
